@@ -1,6 +1,92 @@
-(** C07 — provisional statement file (whole-type theorems are being added). *)
-From Asn1V Require Import Base.Prelude Base.Bits Base.BitsProofs Syntax.Asn1 Per.UperImpl Per.UperPrim.
+(** C07 — extension additions keep old and new versions of a type
+    interoperable.  Statements only; proofs in Per/UperExt.v (UPER).
 
-Theorem C07_length_determinant_prefix_behaviour : PB read_len.
-Proof. exact PB_read_len. Qed.
-Print Assumptions C07_length_determinant_prefix_behaviour.
+    Version 2 differs from version 1 by additions appended after the existing
+    ones at an extensible node; everything below the node is common to both
+    versions (its codec obeys the round-trip theorem of C01), and the node can
+    sit at any depth because the theorems hold for every fuel, environment and
+    continuation of the input.  OPEN: the single inductive statement over
+    simultaneous extensions at several nodes ([extends t1 t2]); aligned PER,
+    OER, BER/DER and the text codecs (covered by the property test). *)
+From Asn1V Require Import Base.Prelude Base.Bits Syntax.Asn1 Per.UperImpl Per.UperPrim Per.UperPB Per.UperRT Per.UperExt.
+
+(** SEQUENCE/SET, forward: a version-2 encoding (additions [common ++ new],
+    members or [[groups]]) decoded by version 1 yields the version-1 view —
+    root components and the additions version 1 knows; unknown additions are
+    skipped by their open-type length — and leaves all following input intact. *)
+Theorem C07_uper_sequence_forward :
+  forall numeric e f isset root common new data bs,
+    enc numeric e (S f) (TSeq isset root (Some (common ++ new))) (VSeq data) = Ok bs ->
+    forall rest,
+      dec numeric e (S f) (TSeq isset root (Some common)) (bs ++ rest)
+      = Ok (VSeq (norm_members (norm numeric e f) (resolve e f) root data ++
+                  norm_adds (enc numeric e f) (norm numeric e f) (resolve e f) common data), rest).
+Proof. exact uper_seq_forward. Qed.
+Print Assumptions C07_uper_sequence_forward.
+
+(** SEQUENCE/SET, backward: a version-1 encoding decoded by version 2 is the same value. *)
+Theorem C07_uper_sequence_backward :
+  forall numeric e f isset root common new data bs,
+    enc numeric e (S f) (TSeq isset root (Some common)) (VSeq data) = Ok bs ->
+    forall rest,
+      dec numeric e (S f) (TSeq isset root (Some (common ++ new))) (bs ++ rest)
+      = Ok (norm numeric e (S f) (TSeq isset root (Some common)) (VSeq data), rest).
+Proof. exact uper_seq_backward. Qed.
+Print Assumptions C07_uper_sequence_backward.
+
+(** CHOICE: an alternative both versions know is encoded identically by both
+    and decoded by either; an alternative only version 2 knows is reported as
+    absent by version 1, which skips exactly its open type. *)
+Theorem C07_uper_choice_known_alternative :
+  forall numeric e f root common new name x bs,
+    (find_alt name root 0 <> None \/ find_alt name common 0 <> None) ->
+    (enc numeric e (S f) (TChoice root (Some (common ++ new))) (VChoice name x) = Ok bs ->
+     forall rest, dec numeric e (S f) (TChoice root (Some common)) (bs ++ rest)
+                  = Ok (norm numeric e (S f) (TChoice root (Some common)) (VChoice name x), rest)) /\
+    (enc numeric e (S f) (TChoice root (Some common)) (VChoice name x) = Ok bs ->
+     forall rest, dec numeric e (S f) (TChoice root (Some (common ++ new))) (bs ++ rest)
+                  = Ok (norm numeric e (S f) (TChoice root (Some (common ++ new))) (VChoice name x), rest)).
+Proof. exact uper_choice_known_alternative. Qed.
+Print Assumptions C07_uper_choice_known_alternative.
+
+Theorem C07_uper_choice_unknown_alternative :
+  forall numeric e f root common new name x bs,
+    find_alt name root 0 = None -> find_alt name common 0 = None ->
+    enc numeric e (S f) (TChoice root (Some (common ++ new))) (VChoice name x) = Ok bs ->
+    forall rest, dec numeric e (S f) (TChoice root (Some common)) (bs ++ rest) = Ok (VUnknownChoice, rest).
+Proof. exact uper_choice_unknown_alternative. Qed.
+Print Assumptions C07_uper_choice_unknown_alternative.
+
+(** ENUMERATED: an item only version 2 knows decodes as absent (None) under
+    version 1; an item both know has the same encoding in both versions. *)
+Theorem C07_uper_enum_unknown_item :
+  forall numeric root adds new d bs,
+    index_of_last numeric d (sort_by_value root) 0 = None ->
+    index_of_last numeric d new (Z.of_nat (length adds)) <> None ->
+    enc_enum numeric root (Some (adds ++ new)) d = Ok bs ->
+    forall rest, read_enum numeric root (Some adds) (bs ++ rest) = Ok (VNone, rest).
+Proof. exact uper_enum_unknown_item. Qed.
+Print Assumptions C07_uper_enum_unknown_item.
+
+Theorem C07_uper_enum_known_item :
+  forall numeric root adds new d,
+    index_of_last numeric d new (Z.of_nat (length adds)) = None ->
+    enc_enum numeric root (Some (adds ++ new)) d = enc_enum numeric root (Some adds) d.
+Proof. exact uper_enum_known_item. Qed.
+Print Assumptions C07_uper_enum_known_item.
+
+Local Open Scope string_scope.
+(** Non-vacuity: V1 = { a, ..., x }, V2 = { a, ..., x, [[ g, h ]], y }; a V2
+    value with all additions present decodes under V1 to { a, x } and the
+    trailing marker bits stay in place. *)
+Example C07_forward_instance :
+  let root := [("a", TInt (IcRange (Some 0) (Some 7) false), Mandatory)] in
+  let common := [(false, [("x", TBool, Optional)])] in
+  let new := [(true, [("g", TOctets SzNone, Mandatory); ("h", TInt IcNone, Optional)]);
+              (false, [("y", TStr SkIA5 SzNone None, Optional)])] in
+  let v2 := VSeq [("a", VInt 5); ("x", VBool true); ("g", VBytes [1; 2; 3]); ("h", VInt (-70000)); ("y", VStr [104; 105])] in
+  exists bs, enc false [] 6 (TSeq false root (Some (common ++ new)%list)) v2 = Ok bs /\
+             dec false [] 6 (TSeq false root (Some common)) (bs ++ [true; false; true])%list
+             = Ok (VSeq [("a", VInt 5); ("x", VBool true)], [true; false; true]).
+Proof. cbv zeta. eexists. split; [vm_compute; reflexivity | vm_compute; reflexivity]. Qed.
+Print Assumptions C07_forward_instance.
